@@ -1294,7 +1294,7 @@ Inductive dqeff (s s' : st) (u d : nat) : Prop :=
              d <> 2 * u + 1 -> d <> 2 * u + 2 -> 1 <= d <= 2 * nthr s -> dqeff s s' u d
 | DPush f : dq s' d = f :: dq s d -> In f (held (thr s u)) ->
             ((d = sfrom s u /\ exists k i a b c, pc (thr s u) = PL2 k i a b c f) \/
-             (d = 4 * u + 3 - sfrom s u /\ forall k i a b c x, pc (thr s u) <> PL2 k i a b c x)) ->
+             (d = 4 * u + 3 - sfrom s u /\ exists k, pc (thr s u) = PSched f k \/ pc (thr s u) = PN9 k f)) ->
             dqeff s s' u d
 | DPop y k : dq s d = y :: dq s' d -> pc (thr s u) = PN7 k -> pc (thr (s') u) = PN8 k y ->
              d = sfrom s u -> dqeff s s' u d.
@@ -1318,7 +1318,7 @@ Proof.
     match goal with |- dqeff _ ?S' _ _ => assert (E : dq S' d = upd (dq s) (4 * u + 3 - sfrom s u) (f :: dq s (4 * u + 3 - sfrom s u)) d) end.
     { destruct k; dmatch; reflexivity. }
     clear Hd. destruct (Nat.eq_dec d (4 * u + 3 - sfrom s u)) as [->|Hne].
-    + apply (DPush _ _ _ _ f); [rewrite E, upd_same; reflexivity| |right; split; [reflexivity|intros ? ? ? ? ? ?; rewrite Hpc; discriminate]].
+    + apply (DPush _ _ _ _ f); [rewrite E, upd_same; reflexivity| |right; split; [reflexivity|exists k; left; exact Hpc]].
       unfold held. rewrite Hpc. destruct L as [_ L]. destruct k; try contradiction; try (left; reflexivity).
       destruct L as (Hc & Hc0 & _). rewrite Hc in *. destruct f; [congruence|]. right; left; reflexivity.
     + apply DSame. rewrite E. apply upd_other; auto.
@@ -1331,7 +1331,7 @@ Proof.
     rewrite Hto by (intros ? ?; try rewrite Hpc; discriminate). cbn [fst].
     destruct (Nat.eq_dec d (4 * u + 3 - sfrom s u)) as [->|Hne].
     + apply (DPush _ _ _ _ x); [cbn [dq set_thr set_dq]; rewrite upd_same; reflexivity|unfold held; rewrite Hpc; left; reflexivity|].
-      right; split; [reflexivity|intros ? ? ? ? ? ?; rewrite Hpc; discriminate].
+      right; split; [reflexivity|exists k; right; exact Hpc].
     + apply DSame. cbn [dq set_thr set_dq]. apply upd_other; auto.
   - (* PL1 *)
     rewrite fst_let2.
